@@ -28,6 +28,7 @@ META = {
     "assumptions": ["selectors range over the stated finite menus", "invariant used for the inductive step: adjacency entry (b,sb,ov) in side "
                     "sa of a iff (a,sa,ov) in side sb of b; no dangling ids; edge_tags keys are links of the graph"],
 }
+META["explanation"] += '  edit/add_node also re-adds an id that is already in the graph (documented: warning, no change).'
 
 PAIR_MENU = [[], [("+", "+")], [("+", "-")], [("-", "-")], [("+", "+"), ("-", "-")], [("+", "-"), ("-", "+")]]
 SELF_MENU = [[], [("+", "+")], [("+", "-")]]
@@ -331,8 +332,10 @@ def build(params):
             pre.append("l2 >= l1")
         if ("l1" in params or params.get("sym")) and not params.get("t2"):
             pre.append("t2 == 0")
-        if op != "add_edge":
+        if op == "remove_node":
             pre.append("y == 0 and dx == 0 and dy == 0 and tg == 0")
+        if op == "add_node":
+            pre.append("y == 0 and dx == 0 and dy == 0")  # tg: 0 = a new node, 1 = an id that is already in the graph
         if op == "add_node":
             pre.append("x == 0")
 
@@ -380,6 +383,10 @@ def build(params):
                 links2 = {l for l in links if l[0] != xn and l[2] != xn}
                 tags2 = {k: v for k, v in tags.items() if k in links2}
                 return compare(g, left, links2, tags2, "after remove_node(%s)" % xn)
+            if pick(tg, [0, 1]):
+                # adding an id that exists is documented as a warning and no change (the nodes here carry no sequence)
+                g.add_node(xn)
+                return compare(g, nodes, links, tags, "after add_node(%s) for an existing node" % xn)
             g.add_node("c")
             return compare(g, nodes + ["c"], links, tags, "after add_node(c)")
 
